@@ -187,7 +187,8 @@ let small_case id c =
               let t = ai 0 in
               let got = (match args r with [] -> None | v :: _ -> Some (int_of_sx v)) in
               let expect = (match s_get (z 1) spec.(t) with Some v -> Some (int_of_z v) | None -> None) in
-              if got <> expect then propfail id (Printf.sprintf "%s Get differs from the sorted map %s" here (show_entries spec.(t)));
+              let sh = function Some v -> Printf.sprintf "a pointer to the value %d" v | None -> "nil" in
+              if got <> expect then propfail id (Printf.sprintf "%s Get on tree %d returns %s, the sorted map says %s; map=%s" here t (sh got) (sh expect) (show_entries spec.(t)));
               Some (OGet (tn t, z 1))
           | "len" ->
               let t = ai 0 in
@@ -472,7 +473,7 @@ let scale_case id c =
            let b = read_side side_path off n in
            follow "walk" t dir n (fun j -> wd b j) None 0 final;
            add_count "scale_iterated" n
-       | "probe", "probe" ->
+       | "probe", ("probe" | "qkeys") ->
            let t = a.(0) in
            List.iter (fun q ->
              let g k = int_of_sx (List.nth (args q) k) in
